@@ -3002,3 +3002,165 @@ def is2(m, run):
     run.ob('IS2.two-pass-interpolation-on-labelled-grid', '%s :: %d non-square grids' % (fi.key, len(cases)), not bad,
            'per-v systems over u, then per-u systems over the intermediate points; result laid out at v + size_v * u' if not bad else
            'grid %s, degrees %s: %s   [%d of %d cases]' % (bad[0][0][0], bad[0][0][1], bad[0][1], len(bad), len(cases)), 'geomdl/fitting.py:%d in %s' % (fi.node.lineno, fi.key))
+
+
+# ====================================================================================== C19 / C07: deep copies share nothing
+def dc9(m, run, rule='DC9.deep-copy-shares-nothing'):
+    """DC9: the __deepcopy__ of every shape class interpreted on an abstract object (memo contract of copy.deepcopy modelled: an object whose
+    id is in memo is replaced by the memo value, containers are copied recursively): the copy is a new object of the same class, every
+    attribute of the source is present in it, no list or dict reachable from the copy is the same object as one reachable from the source -
+    the cache dictionary included - and every attribute other than the cache has equal content"""
+    def reach(x, seen):
+        if isinstance(x, (list, dict)):
+            if id(x) in seen:
+                return
+            seen[id(x)] = x
+            for y in (x.values() if isinstance(x, dict) else x):
+                reach(y, seen)
+        elif isinstance(x, tuple):
+            for y in x:
+                reach(y, seen)
+
+    def same_content(a, b):
+        if isinstance(a, (list, tuple)) and isinstance(b, (list, tuple)):
+            return len(a) == len(b) and all(same_content(x, y) for x, y in zip(a, b))
+        if isinstance(a, dict) and isinstance(b, dict):
+            return set(a) == set(b) and all(same_content(a[k], b[k]) for k in a)
+        return a is b or a == b
+    n = 0
+    for mod, cname in (('BSpline', 'Curve'), ('BSpline', 'Surface'), ('BSpline', 'Volume'), ('NURBS', 'Curve'), ('NURBS', 'Surface'), ('NURBS', 'Volume')):
+        if (mod, cname) not in m.classes:
+            continue
+        fi = m.lookup((mod, cname), '__deepcopy__', 'methods')
+        if fi is None:
+            raise AnalysisError('%s.%s: no __deepcopy__ in its hierarchy' % (mod, cname))
+        n += 1
+        pdim = {'Curve': 1, 'Surface': 2, 'Volume': 3}[cname]
+        kv = [floats(6) for _ in range(pdim)]
+        cp = pts(8, 4 if mod == 'NURBS' else 3)
+        cache = {'ctrlpts': [[DEF()]], 'weights': [DEF()]} if mod == 'NURBS' else {}
+        src = Bag((mod, cname), _cache=cache, _control_points=cp, _knot_vector=kv, _degree=[2] * pdim, _control_points_size=[2] * pdim, _name='shape', _opt_data={'k': [1]},
+                  _eval_points=[[DEF()]], _pdim=pdim, _dimension=3, _rational=(mod == 'NURBS'), _kv_normalize=True, _precision=18, _id=2, _array_type=None, _delta=[0.1] * pdim,
+                  _bounding_box=[], _control_points2D=[[cp[0], cp[1]], [cp[2], cp[3]]], _evaluator=None, _trims=[], _geometry_type='x', _iter_index=0, _idt={}, _span_func=None,
+                  _insert_knot_func=None, _remove_knot_func=None, _tsl_component={'vertices': [], 'faces': []}, _vis_component={'figure': []})
+        # (_id = 2 is also a degree: a memo entry for a small integer would replace every equal integer; the 2-D view holds the very point lists of the flat array)
+        sk = SK(m, dict(STD_ABSTRACTED))
+        key = '%s.%s.__deepcopy__ (defined in %s)' % (mod, cname, fi.key)
+        why = None
+        try:
+            out = sk.call(fi, [src, {}], {})
+            if not isinstance(out, Bag) or out is src or out._cls != src._cls:
+                why = 'does not return a new object of the same class'
+            else:
+                missing = [k for k in src._a if k not in out._a]
+                if missing:
+                    why = 'the copy has no attribute %s' % ', '.join(sorted(missing)[:3])
+                else:
+                    s_seen, c_seen = {}, {}
+                    for k, v in src._a.items():
+                        reach(v, s_seen)
+                    for k, v in out._a.items():
+                        reach(v, c_seen)
+                    shared = [k for k in out._a if isinstance(out._a[k], (list, dict)) and id(out._a[k]) in s_seen]
+                    deep = [i for i in c_seen if i in s_seen]
+                    if shared:
+                        why = 'attribute %s of the copy is the very object held by the source%s' % (
+                            shared[0], ': the cache that holds the derived control point / weight views is shared, so a read on one object overwrites what the other sees' if shared[0] == '_cache' else '')
+                    elif deep:
+                        why = 'a container nested inside the copy is shared with the source'
+                    else:
+                        diff = [k for k in src._a if k != '_cache' and not same_content(src._a[k], out._a[k])]
+
+                        def paths(x, pfx, acc):
+                            if isinstance(x, (list, dict)):
+                                acc.setdefault(id(x), []).append(pfx)
+                                for kk, y in (x.items() if isinstance(x, dict) else enumerate(x)):
+                                    paths(y, pfx + (kk,), acc)
+                            return acc
+                        ps_, pc_ = {}, {}
+                        for k in src._a:
+                            if k != '_cache':
+                                paths(src._a[k], (k,), ps_)
+                                paths(out._a[k], (k,), pc_)
+                        alias_s = sorted(sorted(v) for v in ps_.values() if len(v) > 1)
+                        alias_c = sorted(sorted(v) for v in pc_.values() if len(v) > 1)
+                        if diff:
+                            why = 'attribute %s of the copy does not have the content of the source (a memo entry keyed by the id of a shared value replaces every equal value)' % diff[0]
+                        elif alias_s != alias_c:
+                            lost = next((a for a in alias_s if a not in alias_c), None)
+                            why = ('in the source %s are one object, in the copy they are separate objects: an edit through one view no longer reaches the other'
+                                   % ' and '.join('.'.join(map(str, p_)) for p_ in lost[:2])) if lost else 'the copy aliases containers the source keeps apart'
+                        elif mod == 'NURBS' and not (isinstance(out._a['_cache'], dict) and set(out._a['_cache']) >= {'ctrlpts', 'weights'}):
+                            why = 'the cache of the rational copy is not re-initialised with its ctrlpts / weights entries'
+        except Violation as v:
+            why = '%s %s' % (v.msg, v.where())
+        except Unsupported as ex:
+            raise AnalysisError('%s: interpreter met an unsupported construct: %s' % (key, ex))
+        run.ob(rule, key, why is None, 'new object, all attributes present, no container shared (cache included), same content' if why is None else why,
+               'geomdl/%s.py:%d in %s' % (fi.mod, fi.node.lineno, fi.key))
+    if n < 6:
+        raise AnalysisError('DC9: only %d shape classes found' % n)
+
+
+# ====================================================================================== C19 / C17: knot vector setters on abstract shapes
+def ks2(m, run, rule='KS2.knot-setters-respect-normalisation'):
+    """KS2: every knot vector setter of the shape classes (the per-direction ones and the combined list setter) interpreted on an abstract
+    shape: with normalize_kv=False the stored knot vector of the direction is the list that was given, never the result of
+    knotvector.normalize; with normalize_kv=True it is the result of knotvector.normalize applied to that list; the other directions keep theirs"""
+    cases = (('Curve', 1, (2,), (5,)), ('Surface', 2, (2, 1), (4, 5)), ('Volume', 3, (1, 2, 3), (3, 5, 4)))
+    n = 0
+    for cname, pdim, degs, sizes in cases:
+        names = ['knotvector'] + (['knotvector_' + 'uvw'[d] for d in range(pdim)] if pdim > 1 else [])
+        for prop in names:
+            fi = m.lookup(('BSpline', cname), prop, 'setters')
+            if fi is None:
+                continue
+            for normalize in (False, True):
+                n += 1
+                record = []
+                obj = abstract_shape(cname, pdim, degs, sizes, normalize, record)
+                old = [list(k) for k in obj._a['_knot_vector']]
+                obj._a['_knot_vector'] = [list(k) for k in old]
+                new = [[Tok('DEF', dep=frozenset([('new', d, i)])) for i in range(sizes[d] + degs[d] + 1)] for d in range(pdim)]
+                normed = {}
+
+                def norm_(sk, node, kv, *a, **k):
+                    r = [Tok('DEF', dep=frozenset([('normalized', id(kv), i)])) for i in range(len(kv))]
+                    normed[id(r)] = kv
+                    return r
+                ab = dict(STD_ABSTRACTED)
+                ab[('knotvector', 'normalize')] = Py(norm_, 'knotvector.normalize')
+                ab[('knotvector', 'check')] = Py(lambda sk, node, *a, **k: True, 'knotvector.check')
+                if prop == 'knotvector':
+                    value = new[0] if pdim == 1 else list(new)
+                    touched = list(range(pdim))
+                else:
+                    d_ = 'uvw'.index(prop[-1])
+                    value = new[d_]
+                    touched = [d_]
+                sk = SK(m, ab)
+                key = 'BSpline.%s.%s setter, normalize_kv=%s' % (cname, prop, normalize)
+                why = None
+                try:
+                    sk.call(fi, [obj, value], {})
+                    stored = obj._a['_knot_vector']
+                    for d in range(pdim):
+                        st = stored[d]
+                        if d in touched:
+                            if normalize:
+                                if normed.get(id(st)) is not new[d]:
+                                    why = 'direction %s: with normalize_kv=True the stored knot vector is not knotvector.normalize(<the given list>)' % 'uvw'[d]
+                            elif st is not new[d] and not (isinstance(st, list) and len(st) == len(new[d]) and all(a is b for a, b in zip(st, new[d]))):
+                                why = ('direction %s: the shape was created with normalize_kv=False but the setter stores %s: the knots are mapped onto [0, 1] and two shapes '
+                                       'whose knot vectors differ by a shift or a scale compare equal' % ('uvw'[d], 'the result of knotvector.normalize' if id(st) in normed else 'something else than the given knots'))
+                        elif not (len(st) == len(old[d]) and all(a is b for a, b in zip(st, old[d]))):
+                            why = 'direction %s is not being set but its knot vector changes' % 'uvw'[d]
+                        if why:
+                            break
+                except Violation as v:
+                    why = '%s %s' % (v.msg, v.where())
+                except Unsupported as ex:
+                    raise AnalysisError('%s: interpreter met an unsupported construct: %s' % (key, ex))
+                run.ob(rule, key, why is None, 'stores %s' % ('normalize(given)' if normalize else 'the given knots') if why is None else why, 'geomdl/%s.py:%d in %s' % (fi.mod, fi.node.lineno, fi.key))
+    if n < 12:
+        raise AnalysisError('KS2: only %d knot vector setter cases found' % n)
